@@ -1,7 +1,7 @@
 #!/bin/bash
 # usage: benignrun.sh <patch.diff> [workers]
 # Applies a behaviour-preserving change to a scratch worktree of /repo and runs every
-# claimed quick check against it: every check must exit 0 (anything else is a false alarm
+# claimed quick check (or those named in BENIGN_CHECKS) against it: every check must exit 0 (anything else is a false alarm
 # or build fragility of the machinery). The worktree is removed afterwards.
 patch=$1; workers=${2:-16}
 name=$(basename $(dirname $patch))
@@ -11,7 +11,7 @@ trap "git -C /repo worktree remove --force $wt >/dev/null 2>&1" EXIT
 git -C $wt apply $patch || { echo "BENIGN $name: patch does not apply"; exit 2; }
 cd ${VERIF_SNAP:-/verif}
 bad=0
-for p in $(python3 -c "import json;print(' '.join(c['property_id'] for c in json.load(open('MANIFEST.json'))['checks']))"); do
+for p in ${BENIGN_CHECKS:-$(python3 -c "import json;print(' '.join(c['property_id'] for c in json.load(open('MANIFEST.json'))['checks']))")}; do
   out=$(VERIF_REPO=$wt VERIF_NO_EVIDENCE=1 ./check $p --workers $workers 2>&1); rc=$?
   if [ $rc -ne 0 ]; then
     bad=1
